@@ -29,7 +29,22 @@ var (
 
 func Reset() { Log = nil; PostHook = nil }
 
-const StatusOK = 200
+const (
+	StatusOK                  = 200
+	StatusBadRequest          = 400
+	StatusUnauthorized        = 401
+	StatusForbidden           = 403
+	StatusNotFound            = 404
+	StatusRequestTimeout      = 408
+	StatusConflict            = 409
+	StatusGone                = 410
+	StatusRequestEntityTooLarge = 413
+	StatusTooManyRequests     = 429
+	StatusInternalServerError = 500
+	StatusBadGateway          = 502
+	StatusServiceUnavailable  = 503
+	StatusGatewayTimeout      = 504
+)
 
 func Post(url, contentType string, body io.Reader) (*Response, error) {
 	// a request is a scheduling point and a possible kill point, like a file-system call
